@@ -404,6 +404,11 @@ pub fn erroneous_projects() -> Vec<Project> {
         ("duplicate-impls", "package Main\n\ntrait Tr { fn a(Self) -> int32; }\nimpl Tr for int32 { fn a(self: int32) -> int32 { 1 } }\nimpl Tr for int32 { fn a(self: int32) -> int32 { 2 } }\nimpl Tr for bool { fn a(self: bool) -> int32 { 1 } }\nimpl Tr for bool { fn a(self: bool) -> int32 { 2 } }\nimpl Tr for string { fn a(self: string) -> int32 { 1 } }\nimpl Tr for string { fn a(self: string) -> int32 { 2 } }\nfn main() { () }\n"),
         ("unsatisfied-bounds", "package Main\n\ntrait T1 { fn a(Self) -> int32; }\ntrait T2 { fn b(Self) -> int32; }\ntrait T3 { fn c(Self) -> int32; }\nfn need[U: T1 + T2 + T3](u: U) -> int32 { 1 }\nfn main() { let r = need(1) + need(true) + need(\"s\"); () }\n"),
         ("unknown-imports", "package Main\nimport P1\nimport P2\nimport P3\nimport P4\n\nfn main() { () }\n"),
+        ("unknown-struct-pattern-fields", "package Main\n\nstruct P { x: int32 }\nfn main() { let p = P { x: 1 }; match p { P { x: a, yy: b, zz: c, ww: d, vv: e } => string_println(int32_to_string(a)) } }\n"),
+        ("missing-struct-pattern-fields", "package Main\n\nstruct S { a: int32, b: int32, c: int32, d: int32, e: int32 }\nfn f(s: S) -> int32 { match s { S { c: k } => k } }\nfn main() { () }\n"),
+        ("duplicate-struct-pattern-fields", "package Main\n\nstruct S { a: int32, b: int32, c: int32 }\nfn f(s: S) -> int32 { match s { S { a: x, a: y, b: z, b: w, c: u, c: v } => x } }\nfn main() { () }\n"),
+        ("unknown-struct-literal-and-pattern-fields", "package Main\n\nstruct S { a: int32 }\nfn f(s: S) -> int32 { match s { S { a: x, p: y, q: z, r: w } => x } }\nfn main() { let s = S { a: 1, p: 2, q: 3, r: 4 }; string_println(int32_to_string(f(s))) }\n"),
+        ("wrong-constructor-arities", "package Main\n\nenum E { A(int32), B(int32, int32), C }\nfn f(e: E) -> int32 { match e { A(x, y) => 1, B(x) => 2, C(x) => 3 } }\nfn main() { let a = A(1, 2); let b = B(1); let c = C(1); () }\n"),
     ] {
         out.push(Project { name: format!("many-diagnostics-{}", which), files: vec![("main.gom".into(), src.into())], expected_stdout: None });
     }
